@@ -125,6 +125,230 @@ def sink_swap_sequence(run: lib.Run, pol, req, cfg) -> None:
             return
 
 
+# ---------------------------------------------------------------------- the translated sink block vs the same statements run by CPython
+SINK_KINDS = ["missing", "none", (False, False), (False, True), (True, False), (True, True)]     # (coroutine function?, raises?)
+
+
+def make_holder(spec: dict, record: list, prefix: str):
+    """a sink object whose attributes are as `spec` says — "missing", "none" (the attribute is None), or a method that is a plain `def` /
+    an `async def` and returns / raises — recording every call whose body runs as (label, ran as a coroutine, positional arguments)"""
+    ns: dict = {}
+    for name, kind in spec.items():
+        if kind == "missing":
+            continue
+        if kind == "none":
+            ns[name] = None
+            continue
+        coro, raises = kind
+        label = f"{prefix}.{name}"
+        if coro:
+            async def f(self, *args, _l=label, _r=raises):
+                record.append((_l, True, args))
+                if _r:
+                    raise RuntimeError("sink down")
+        else:
+            def f(self, *args, _l=label, _r=raises):
+                record.append((_l, False, args))
+                if _r:
+                    raise RuntimeError("sink down")
+        ns[name] = f
+    return type("Holder", (), ns)()
+
+
+def sink_configs():
+    """(metrics spec | None, logger spec | None): every combination of the three sinks' kinds, and the objects not configured"""
+    import itertools
+    mets = [None] + [{"inc": a, "observe": b} for a, b in itertools.product(SINK_KINDS, SINK_KINDS)]
+    logs = [None] + [{"log": a} for a in SINK_KINDS]
+    return list(itertools.product(mets, logs))
+
+
+def decision_shapes(fields):
+    import itertools
+    import rbacx.core.engine as reng
+    for t in itertools.product((True, False), ("permit", "deny"), ([], [{"type": "require_mfa"}]), (None, "mfa"), (None, "r"),
+                               (None, "p"), ("matched", "obligation_failed", None)):
+        yield reng.Decision(**dict(zip(fields, t)))
+
+
+def translated_vs_python(run: lib.Run, facts: dict) -> tuple[bool, str]:
+    """the translated sink block of `Guard._evaluate_core_async` (Generated.Src.engine_sinks, evaluated by `lake env lean --run
+    Rbacx/Run/SrcEvalSinks.lean`) against the SAME statements of the current source text, compiled as a real `async def` and driven by
+    CPython (pytolean_sinks.block_as_python) with RECORDING sink objects: every combination of {attribute missing, attribute None, `def`,
+    `async def`} × {returns, raises} for `metrics.inc`, `metrics.observe` and `logger_sink.log`, `metrics=None`, `logger_sink=None`, over
+    Decision objects of every shape — compared on the list of calls (which sink, ran as a coroutine, arguments) and on the returned value
+    (which must be the very Decision object handed in).  `getattr`, `inspect.iscoroutinefunction`, `await`, the three try/except blocks
+    and `max(0.0, _now() - start)` are CPython's own.  Validates the readings the obligation C11_sinks_translated trusts."""
+    import dataclasses
+    import json
+    import subprocess
+
+    import pytolean_async as pa
+    import pytolean_sinks as ps
+    import rbacx.core.engine as reng
+    from extractors import src_translation_sinks as plug
+    src, cfg = plug.config(real.REPO)
+    try:
+        pyrun, opaque_values, tf = ps.block_as_python(src, plug.METHOD, plug.START, cfg, vars(reng))
+    except pa.Unsupported as e:
+        return False, f"sink block: {e}"
+    fr = facts[plug.LEAN_NAME]
+    if tf["inputs"] != fr["inputs"] or tf["sinks"] != fr["sinks"] or [o["param"] for o in tf["opaque"]] != [o["param"] for o in fr["opaque"]]:
+        return False, f"sink block: inputs of the imported module {tf['inputs']} / {tf['sinks']} differ from the extracted ones"
+    holders = sorted({a for a, _, _ in fr["sinks"]})
+    if any(h not in ("self.metrics", "self.logger_sink") for h in holders):
+        return False, f"sink block: unexpected sink holders {holders}"
+    param = {(a, n): p for a, n, p in fr["sinks"]}
+    fields = facts["decision_fields"]
+    shapes = list(decision_shapes(fields))
+    envs = [{}, {"subject": {"id": "u", "roles": ["a"], "attrs": {}}, "action": "read", "__strict_types__": True}]
+    quick = run.tier == "quick"
+    cases = []
+    k = 0
+    for met, log in sink_configs():
+        for _ in range(2 if quick else 6):
+            cases.append((met, log, shapes[(k * 37) % len(shapes)], envs[k % 2], (10.0, 12.5) if k % 3 else (10.0, 9.0)))
+            k += 1
+    some = [c for i, c in enumerate(sink_configs()) if i % 29 == 0]
+    for d in shapes:
+        met, log = some[k % len(some)]
+        cases.append((met, log, d, envs[k % 2], (1.0, 1.25)))
+        k += 1
+    lines, wants = [], []
+
+    def rec(obj):
+        return {f.name: getattr(obj, f.name) for f in dataclasses.fields(obj)}
+    for met, log, d, env, (start, now) in cases:
+        record: list = []
+        hold = {"self.metrics": None if met is None else make_holder(met, record, "self.metrics"),
+                "self.logger_sink": None if log is None else make_holder(log, record, "self.logger_sink")}
+        values = {"d": d, "env": env, "start": start}
+        if any(v not in values and v not in hold for v in tf["inputs"]) or any(v not in values for o in tf["opaque"] for v in o["reads"]):
+            return False, f"sink block: an input the harness has no value for: {tf['inputs']} / {[o['reads'] for o in tf['opaque']]}"
+        clock = (lambda now=now: now)
+        try:
+            end = pyrun(values, hold, clock)
+            opq = opaque_values(values, clock)
+        except Exception as e:  # noqa: BLE001
+            return False, f"sink block as python: {type(e).__name__}: {e}"
+        same = True
+        if end[0] == "returned":
+            ending = {"returned": proto.enc(rec(end[1])) if dataclasses.is_dataclass(end[1]) else "<not a Decision>"}
+            same = end[1] is d
+        else:
+            ending = "raised"
+        wants.append(({"calls": [{"callee": c, "coro": co, "args": [proto.enc(a) for a in args]} for c, co, args in record], "ending": ending}, same))
+        sinks = {}
+        for (a, n), p in param.items():
+            spec = met if a == "self.metrics" else log
+            kind = "missing" if spec is None else spec[n]
+            sinks[p] = None if kind in ("missing", "none") else {"coro": kind[0], "raises": kind[1]}
+        args = {"self.metrics": None if met is None else "<metrics>", "self.logger_sink": None if log is None else "<logger>",
+                "d": proto.enc(rec(d)), "env": proto.enc(env)}
+        lines.append(json.dumps({"sinks": sinks, "opaque": {p: proto.enc(v) for p, v in opq.items()},
+                                 "args": {v: args[v] for v in tf["inputs"]}}))
+    p = subprocess.run(["lake", "env", "lean", "--run", "Rbacx/Run/SrcEvalSinks.lean"], cwd=lib.LEAN, input="\n".join(lines) + "\n",
+                       capture_output=True, text=True, timeout=1800)
+    outs = [ln for ln in p.stdout.split("\n") if ln]
+    if p.returncode != 0 or len(outs) != len(lines):
+        return False, "SrcEvalSinks: " + (p.stderr or p.stdout)[-800:]
+    bad = 0
+    for (met, log, d, env, clk), (want, same), ln, line in zip(cases, wants, outs, lines):
+        got = json.loads(ln)
+        run.count("translated-sinks")
+        if got != want or not same:
+            bad += 1
+            if bad == 1:
+                run.disagreements.append({"part": "translated source vs python", "range": "engine_sinks", "metrics": repr(met), "logger": repr(log),
+                                          "line": json.loads(line), "impl": {"python": want, "returned_the_object_handed_in": same}, "model": got,
+                                          "what": "the translated sink block (Generated.Src.engine_sinks) and the same statements run by CPython differ"})
+    run.evaluations += len(cases)
+    return bad == 0, f"{bad} of {len(cases)} evaluations differ" if bad else f"agree on {len(cases)} evaluations"
+
+
+def sink_matrix_on_engine(run: lib.Run) -> None:
+    """the property's clause on the REAL engine for every kind of sink: a Guard with recording `metrics` / `logger_sink` objects of every
+    combination of {attribute missing, None, `def`, `async def`} × {returns, raises}, a permit, a deny and a permit revoked by the
+    obligation gate, cold and on a cache hit, through the sync and the async API: the returned Decision equals the one of a Guard without
+    sinks, exactly one `inc` / `observe` / `log` call reaches every sink that is there, in this order, carrying the returned Decision's
+    fields"""
+    import asyncio
+    from rbacx.core.engine import Guard
+    pol = {"algorithm": "deny-overrides", "rules": [
+        {"id": "p", "effect": "permit", "actions": ["read"], "resource": {"type": "doc"}},
+        {"id": "m", "effect": "permit", "actions": ["pay"], "resource": {"type": "doc"}, "obligations": [{"type": "require_mfa", "on": "permit"}]},
+        {"id": "x", "effect": "deny", "actions": ["drop"], "resource": {"type": "doc"}}]}
+    reqs = [real.make_request({"sid": "u", "roles": [], "sattrs": {}, "action": a, "rtype": "doc", "rid": "1", "rattrs": {}, "ctx": {}})
+            for a in ("read", "pay", "drop", "other")]
+    plain = Guard(pol)
+    base = [plain.evaluate_sync(*rq) for rq in reqs]
+    fields = ("allowed", "effect", "obligations", "challenge", "rule_id", "policy_id", "reason")
+    for n, (met, log) in enumerate(sink_configs()):
+        record: list = []
+        g = Guard(pol, metrics=None if met is None else make_holder(met, record, "self.metrics"),
+                  logger_sink=None if log is None else make_holder(log, record, "self.logger_sink"),
+                  cache=DefaultInMemoryCache(16) if n % 2 else None)
+        for j, rq in enumerate(reqs):
+            for rep in range(2 if n % 2 else 1):
+                del record[:]
+                run.evaluations += 1
+                run.count("sink-matrix")
+                why = None
+                try:
+                    d = asyncio.run(g.evaluate_async(*rq)) if (n + j) % 2 else g.evaluate_sync(*rq)
+                except Exception as e:  # noqa: BLE001
+                    why, d = f"the evaluation raised {type(e).__name__} (a sink's failure propagated)", None
+                if d is not None:
+                    want = []
+                    for holder, spec, names in (("self.metrics", met, ("inc", "observe")), ("self.logger_sink", log, ("log",))):
+                        for nm in names:
+                            if spec is not None and isinstance(spec[nm], tuple):
+                                want.append(f"{holder}.{nm}")
+                    got = [c for c, _, _ in record]
+                    if any(getattr(d, f) != getattr(base[j], f) for f in fields):
+                        why = "the sinks changed the returned decision"
+                    elif got != want:
+                        why = f"sink calls {got} for one evaluation, expected exactly {want}"
+                    else:
+                        for c, _, args in record:
+                            if c.endswith("log"):
+                                pl = args[0]
+                                if (pl.get("decision"), pl.get("allowed"), pl.get("rule_id"), pl.get("policy_id"), pl.get("reason"), pl.get("obligations")) != \
+                                        (d.effect, d.allowed, d.rule_id, d.policy_id, d.reason, d.obligations):
+                                    why = "audit record differs from the returned decision"
+                            elif args[-1] != {"decision": d.effect}:
+                                why = "metric label differs from the decision's effect"
+                if why:
+                    run.spec_failures.append({"policy": pol, "request": {"action": rq[1].name},
+                                              "cfg": {"metrics": repr(met), "logger": repr(log), "cache": bool(n % 2), "repeat": rep},
+                                              "impl": {"calls": [(c, co) for c, co, _ in record]}, "model": None, "spec": "sinks of every kind: " + why})
+                    return
+
+
+def sinks_obligation(run: lib.Run, audit: dict) -> tuple[bool, bool, str, dict | None]:
+    """run and register the per-run obligation C11_sinks_translated and the comparison with CPython; returns (obligation discharged,
+    comparison ok, Lean's message or the comparison's, the extracted translation)"""
+    tr = audit["facts"].get("translated_sinks")
+    untranslatable = isinstance(tr, dict) and ("extraction_failed" in tr or "failed" in tr.get("engine_sinks", {}))
+    if untranslatable and "extraction_failed" not in tr:
+        tr = {**tr, "extraction_failed": tr["engine_sinks"]["failed"]}
+    ok_tr, detail_tr = lib.run_obligation("C11_sinks_translated", deps=["C01_translated"])
+    run.obligation("C11_sinks_translated: Generated.Src.engine_sinks (the current source text of Guard._evaluate_core_async from `if self.metrics "
+                   "is not None:` to `return d`, as a sink-call trace; the three sinks as parameters: absent / def / async def, returning / raising) "
+                   "returns the Decision it was handed and ends `returned` whatever the sinks do, makes exactly one inc, one observe, one log call in "
+                   "this order (each iff its object is configured and has the attribute) with the labels / payload of Src.engine_metric_labels / "
+                   "Src.engine_audit_payload = the events of the model's finishDecision",
+                   ok_tr, "discharged" if ok_tr else (str(tr["extraction_failed"]) if untranslatable else detail_tr))
+    if untranslatable or not isinstance(tr, dict):
+        ok_py, detail_py = True, "skipped: the sink block is not in the translatable subset (see C11_sinks_translated)"
+    else:
+        ok_py, detail_py = translated_vs_python(run, tr)
+    run.obligation("translated sink block evaluates like the same statements run by CPython with recording sinks (pytolean_sinks + "
+                   "Model/PySinks.lean vs CPython: getattr, iscoroutinefunction, await, try/except, def / async def / raising / missing sinks)",
+                   ok_py, detail_py)
+    return ok_tr, ok_py, (detail_tr if not ok_tr else detail_py), tr
+
+
 def run_cases(run: lib.Run, audit: dict, scale: int = 1):
     quick = run.tier == "quick"
     consts = audit["facts"]["consts"]
@@ -201,19 +425,46 @@ def check(run: lib.Run, audit: dict) -> int:
     # proved to be the events / the Decision of the model's finishDecision (C01's obligation; its comparison with CPython runs there)
     from props import c01 as _c01
     ok_tr, _, detail_tr, tr = _c01.translated_obligation(run, audit, differential=False)
-    run_cases(run, audit, scale=run.boost * (1 if ok_tr else 2))
+    # the sink block itself (which sinks are called, how often, in which order, with what; that nothing they do reaches the Decision) as
+    # the engine is written NOW: a sink-call trace proved equal to its specification and to the model's events
+    ok_sk, ok_sk_py, detail_sk, tr_sk = sinks_obligation(run, audit)
+    # … and that block is run exactly once per evaluation, and is the only place that touches the sinks (the assembly of the method; C14's)
+    from props import c14 as _c14
+    ok_asm, detail_asm = _c14.core_assembly_obligation(run, audit)
+    which = "Rbacx/Run/C11_sinks_translated.lean"
+    if not ok_asm and ok_sk:
+        ok_sk, detail_sk, which = False, detail_asm, ("Rbacx/Run/C14_core_assembly.lean (the sink block is no longer the only place that touches the "
+                                                      "sinks, or is no longer run exactly once per evaluation)")
+    sink_matrix_on_engine(run)
+    run_cases(run, audit, scale=run.boost * (1 if ok_tr and ok_sk else 2))
     violations = []
-    if (run.disagreements or not ok_tr) and not run.spec_failures:
+    if (run.disagreements or not ok_tr or not ok_sk) and not run.spec_failures:
         run_cases(run, audit, scale=4)
     if run.spec_failures:
         path = run.write_replay("spec", {"what": "C11 violated on the real engine", "case": run.spec_failures[0], "count": len(run.spec_failures)})
         violations.append((path, True))
+    elif not ok_sk and ok_tr:
+        path = run.write_replay("obligation", {"what": "per-run obligation " + which + " no longer checks: the translated source of "
+                                               "the engine's sink block (Guard._evaluate_core_async from `if self.metrics is not None:` to `return d`) "
+                                               "is not proved to return the Decision it was handed, to call inc / observe / log exactly once in this "
+                                               "order whatever the sinks do, or to hand them the labels / payload of the model's events "
+                                               "(Rbacx.C11.c11_one_audit_one_metric, c11_sinks_cannot_change_decision); the sink matrix on the real "
+                                               "engine and the widened search found no case on which the audit trail is untruthful",
+                                               "translation": tr_sk, "lean": detail_sk[-1500:], "first_disagreement": run.disagreements[:1]})
+        violations.append((path, False))
     elif not ok_tr:
         path = run.write_replay("obligation", {"what": "per-run obligation Rbacx/Run/C01_translated.lean no longer checks: the translated source of the "
                                                "engine's decision core (gate, Decision, audit payload, metric labels) is not proved equal to the "
                                                "model's finishDecision, the object Rbacx.C11.c11_one_audit_one_metric is about; the widened search "
                                                "found no case on which the explanation or the audit trail is untruthful",
                                                "translation": tr, "lean": detail_tr[-1500:], "first_disagreement": run.disagreements[:1]})
+        violations.append((path, False))
+    elif not ok_sk_py or any(d.get("part") == "translated source vs python" for d in run.disagreements):
+        first = next((d for d in run.disagreements if d.get("part") == "translated source vs python"),
+                     {"part": "translated source vs python", "what": detail_sk})
+        path = run.write_replay("correspondence", {"what": "translated source vs python: " + str(first.get("what")) + "; the obligation "
+                                                   "C11_sinks_translated rests on a translation that CPython contradicts (or that could not be evaluated)",
+                                                   "first": first, "count": len(run.disagreements)})
         violations.append((path, False))
     elif run.disagreements:
         path = run.write_replay("correspondence", {"what": "model and engine disagree on (rule_id, reason, policy_id, obligations, challenge, events); "
@@ -227,6 +478,13 @@ def replay(run: lib.Run, audit: dict, path: str) -> int:
     import json
     rp = json.load(open(path))
     c = rp.get("case") or rp.get("first")
+    if not c or "policy" not in c or str(c.get("spec", "")).startswith("sinks of every kind") or c.get("part") == "translated source vs python":
+        print("recorded:", json.dumps(c or rp.get("what"), default=str)[:2000])
+        if c and str(c.get("spec", "")).startswith("sinks of every kind"):
+            before = len(run.spec_failures)
+            sink_matrix_on_engine(run)
+            print("sink matrix on the engine now:", run.spec_failures[before:] or "no failure")
+        return 0
     print("impl now:", real.run_guard(c["policy"], c["request"], c["cfg"]))
     print("recorded:", c["impl"], "model:", c["model"])
     return 0
